@@ -19,6 +19,12 @@ class Faults:
     inv = 0
     fault = 0
     exc = ValueError
+    msg = 'boom'
+
+
+# exception payloads a warning / fallback path must survive
+MESSAGES = ['boom', "unexpected token '}' at {0} in {name}", '100% %s %(x)s', '', {'id': 7}, 'multi\nline \x00 \u2603',
+            ('tuple', 'args')]
 
 
 class U:
@@ -44,7 +50,7 @@ class MyError(Exception):
 def pretty_u(value, ctx):
     Faults.inv += 1
     if Faults.inv == Faults.fault:
-        raise Faults.exc('boom')
+        raise Faults.exc(Faults.msg)
     return P.pretty_call(ctx, U, *value.kids)
 
 
@@ -52,7 +58,7 @@ def pretty_u(value, ctx):
 def pretty_v(value, ctx, trailing_comment=None):
     Faults.inv += 1
     if Faults.inv == Faults.fault:
-        raise Faults.exc('boom')
+        raise Faults.exc(Faults.msg)
     return P.pretty_call(ctx, U, *value.kids)
 
 
@@ -209,16 +215,18 @@ class Observer:
         obs = self
 
         def start_visit(ctx, value):
-            obs.orig[0](ctx, value)
+            r = obs.orig[0](ctx, value)
             if not any(s is ctx.visited for s in obs.sets):
                 obs.sets.append(ctx.visited)
             if id(value) in obs.ids:
                 obs.log.append(['start', obs.ids[id(value)]])
+            return r
 
         def end_visit(ctx, value):
-            obs.orig[1](ctx, value)
+            r = obs.orig[1](ctx, value)
             if id(value) in obs.ids:
                 obs.log.append(['end', obs.ids[id(value)]])
+            return r
 
         def is_visited(ctx, value):
             r = obs.orig[2](ctx, value)
@@ -241,6 +249,7 @@ def observe(graph, root, fault=0, exc=ValueError, width=79):
     with Observer() as ob:
         ob.ids = ids
         Faults.inv, Faults.fault, Faults.exc = 0, fault, exc
+        Faults.msg = MESSAGES[(fault + len(graph) + len(exc.__name__)) % len(MESSAGES)] if fault else 'boom'
         with warnings.catch_warnings(record=True) as wl:
             warnings.simplefilter('always')
             with common.time_limit(20):
@@ -248,7 +257,7 @@ def observe(graph, root, fault=0, exc=ValueError, width=79):
         res['nwarn'] = sum(1 for w in wl if 'raised an exception' in str(w.message))
         res['warn_names'] = [str(w.message).split(',')[1].strip() for w in wl if 'raised an exception' in str(w.message)]
         res['log'] = list(ob.log)
-        res['residue'] = sum(len(s) for s in ob.sets)
+        res['residue'] = sum(len([k for k in s if (s[k] if isinstance(s, dict) else True)]) for s in ob.sets)
         Faults.inv, Faults.fault = 0, 0
         with warnings.catch_warnings():
             warnings.simplefilter('ignore')
